@@ -5,6 +5,17 @@ A measurement of generator quality; no verdict depends on it."""
 import json, glob, os, collections
 ROOT = os.path.abspath(os.path.join(os.path.dirname(os.path.abspath(__file__)), ".."))
 REPO = os.environ.get("VERIF_REPO", "/repo")
+
+def inline_test_start(src):
+    """1-based line of the first `#[cfg(test)]` that introduces an INLINE module (`mod x {`); a `#[cfg(test)] mod tests;`
+    declaration near the top of a file (math/src/field/*/mod.rs) does not make the rest of the file test code."""
+    for i, l in enumerate(src):
+        if l.strip().startswith("#[cfg(test)]"):
+            nxt = next((x.strip() for x in src[i + 1:i + 4] if x.strip() and not x.strip().startswith("#[")), "")
+            if nxt.startswith("mod ") and nxt.rstrip().endswith("{"):
+                return i + 1
+    return 10 ** 9
+
 allr = {}
 who = collections.defaultdict(set)
 dumps = sorted(glob.glob(os.path.join(ROOT, ".cache", "cov", "C*", "regions.json")))
@@ -26,7 +37,7 @@ for f in sorted(by):
         src = open(os.path.join(REPO, f)).read().split("\n")
     except OSError:
         src = []
-    tstart = next((i + 1 for i, l in enumerate(src) if l.strip().startswith("#[cfg(test)]")), 10 ** 9)
+    tstart = inline_test_start(src)
     regs = [r for r in by[f] if r[0] < tstart]
     if not regs:
         continue
